@@ -356,3 +356,164 @@ def run(ctx):
         ctx.exhaustive["invalid_argument_list"] = n
     run_hypothesis(ctx, raw_cases(), oracle, 150 if q else 1500, "C11-raw")
     run_hypothesis(ctx, arg_cases(), oracle, 60 if q else 600, "C11-args")
+
+
+# =====================================================================================================
+# Histories: a Hypothesis rule-based state machine drives REAL optimiser updates (both training loops,
+# several optimisers and learning rates, occasional jolts of the raw parameters) and checks after every
+# step that every constrained node of the model is still valid.
+# =====================================================================================================
+def validate_model(model, where, ctx=None):
+    """Walk the (wrapped) model; for every node of a constrained class check its predicates on unwrap(node)."""
+    kinds = (B.Affine, B.Scale, B.TriangularAffine, B.RationalQuadraticSpline, D.VmapMixture, D._StandardStudentT,
+             W_.WeightNormalization)
+    nodes = [n for n in jax.tree_util.tree_leaves(model, is_leaf=lambda n: isinstance(n, kinds)) if isinstance(n, kinds)]
+    for n in nodes:
+        name = type(n).__name__
+        if isinstance(n, W_.WeightNormalization):
+            u = np.asarray(W_.unwrap(n), np.float64)
+            sc = np.asarray(W_.unwrap(n.scale), np.float64)
+            if not np.all(np.isfinite(u)) or np.any(sc <= 0) or np.any(np.abs(np.linalg.norm(u, axis=-1, keepdims=True) - sc) > 1e-8 * sc):
+                raise Violation(f"C11|history|WeightNormalization|{where}", f"row norms {np.linalg.norm(u, axis=-1).tolist()} scale {sc.tolist()}")
+            continue
+        u = W_.unwrap(n)
+        if isinstance(n, (B.Affine, B.Scale)):
+            sc = np.asarray(u.scale, np.float64)
+            if not np.all(np.isfinite(sc)) or np.any(sc <= 0):
+                raise Violation(f"C11|history|{name}.scale|{where}", f"scale {sc.tolist()}")
+        elif isinstance(n, B.TriangularAffine):
+            T = np.asarray(u.triangular, np.float64)
+            dg = np.diagonal(T, axis1=-2, axis2=-1)
+            if not np.all(np.isfinite(T)) or np.any(dg <= 0):
+                raise Violation(f"C11|history|TriangularAffine.diag|{where}", f"diag {dg.tolist()}")
+        elif isinstance(n, B.RationalQuadraticSpline):
+            a, b = float(n.interval[0]), float(n.interval[1])
+            for nm in ("x_pos", "y_pos"):
+                p = np.asarray(getattr(u, nm), np.float64)
+                if not np.all(np.isfinite(p)) or np.any(np.diff(p, axis=-1) <= 0) or np.any(p[..., 0] != a) or np.any(p[..., -1] != b):
+                    raise Violation(f"C11|history|RQS.{nm}|{where}", f"{p.tolist()}")
+            d = np.asarray(u.derivatives, np.float64)
+            if not np.all(np.isfinite(d)) or np.any(d < n.min_derivative * (1 - 1e-12)):
+                raise Violation(f"C11|history|RQS.derivatives|{where}", f"{d.tolist()}")
+        elif isinstance(n, D.VmapMixture):
+            lw = np.asarray(u.log_normalized_weights, np.float64)
+            if not np.all(np.isfinite(lw)) or abs(np.sum(np.exp(lw)) - 1) > 1e-12:
+                raise Violation(f"C11|history|Mixture.weights|{where}", f"{lw.tolist()}")
+        elif isinstance(n, D._StandardStudentT):
+            df = np.asarray(u.df, np.float64)
+            if not np.all(np.isfinite(df)) or np.any(df <= 0):
+                raise Violation(f"C11|history|StudentT.df|{where}", f"{df.tolist()}")
+    return len(nodes)
+
+
+from flowjax import wrappers as W_  # noqa: E402
+
+
+def history_model(kind, seed):
+    dim = 2
+    base = D.StandardNormal((dim,))
+    if kind == "studentt_maf_spline":
+        return bd.build_flow({"factory": "masked_autoregressive_flow", "dim": dim, "cond_dim": None, "invert": True, "layers": 2,
+                              "key": seed, "transformer": "rqs", "width": 4}, base=D.StudentT(jnp.full(dim, 3.0)))
+    if kind == "mixture":
+        return D.VmapMixture(eqx.filter_vmap(lambda m: D.Normal(m * jnp.ones(dim), jnp.ones(dim)))(jnp.arange(3.0)), jnp.ones(3))
+    if kind == "mvn":
+        return D.MultivariateNormal(jnp.zeros(dim), jnp.eye(dim))
+    spec = {"factory": kind, "dim": dim, "cond_dim": None, "invert": True, "layers": 2, "key": seed, "width": 4,
+            "negative_slope": 0.5, "tight": False, "knots": 4}
+    return bd.build_flow(spec, base=base)
+
+
+def run_history_machine(ctx, n_examples, steps):
+    import hypothesis
+    from hypothesis import HealthCheck, settings
+    from hypothesis.stateful import RuleBasedStateMachine, initialize, invariant, rule, run_state_machine_as_test
+    import optax
+    from flowjax.train import fit_to_data, fit_to_variational_target
+    from flowjax.train.losses import ElboLoss
+
+    if F32:
+        return
+    kinds = ["coupling_flow", "masked_autoregressive_flow", "triangular_spline_flow", "block_neural_autoregressive_flow",
+             "planar_flow", "studentt_maf_spline", "mixture", "mvn"]
+    opts = {"sgd": optax.sgd, "adam": optax.adam, "adamw": lambda lr: optax.adamw(lr, weight_decay=0.5), "rmsprop": optax.rmsprop}
+    failures = {}
+
+    class History(RuleBasedStateMachine):
+        def __init__(self):
+            super().__init__()
+            self.model, self.trace = None, []
+
+        @initialize(kind=st.sampled_from(kinds), seed=st.integers(0, 99))
+        def start(self, kind, seed):
+            self.kind, self.model = kind, history_model(kind, seed)
+            self.trace = [("init", kind, seed)]
+            self.k = seed
+
+        @rule(opt=st.sampled_from(sorted(opts)), lr=st.sampled_from([1e-2, 0.3, 3.0, 30.0]), epochs=st.integers(1, 2), dscale=st.sampled_from([1.0, 30.0]))
+        def train_data(self, opt, lr, epochs, dscale):
+            if self.kind == "mvn" and opt == "never":
+                return
+            self.k += 1
+            x = dscale * jr.normal(jr.PRNGKey(self.k), (12, 2))
+            self.trace.append(("fit_to_data", opt, lr, epochs, dscale))
+            m, _ = fit_to_data(jr.PRNGKey(self.k + 1), self.model, x, max_epochs=epochs, batch_size=6, val_prop=0.25,
+                               optimizer=opts[opt](lr), show_progress=False, return_best=False, max_patience=10)
+            self._accept(m)
+
+        @rule(opt=st.sampled_from(sorted(opts)), lr=st.sampled_from([1e-2, 0.3, 3.0]), steps=st.integers(1, 2))
+        def train_vi(self, opt, lr, steps):
+            if self.kind in ("mixture",):
+                return  # mixture sampling is not reparameterised
+            self.k += 1
+            self.trace.append(("fit_to_variational_target", opt, lr, steps))
+            target = lambda v: -0.5 * jnp.sum((v - 2.0) ** 2) * 4.0  # noqa: E731
+            m, _ = fit_to_variational_target(jr.PRNGKey(self.k), self.model, ElboLoss(target, 4), steps=steps,
+                                             optimizer=opts[opt](lr), show_progress=False, return_best=False)
+            self._accept(m)
+
+        @rule(scale=st.sampled_from([1.0, 5.0, 20.0]), seed=st.integers(0, 999))
+        def jolt(self, scale, seed):
+            self.trace.append(("jolt", scale, seed))
+            self._accept(bd.perturb(self.model, scale, seed))
+
+        def _accept(self, m):
+            # updates that leave the box of the property (non-finite or |raw| > 50) are outside its quantifier
+            p, _ = eqx.partition(m, eqx.is_inexact_array, is_leaf=lambda l: isinstance(l, W_.NonTrainable))
+            leaves = [np.asarray(l) for l in jax.tree_util.tree_leaves(p)]
+            if all(np.all(np.isfinite(l)) and np.all(np.abs(l) <= 50) for l in leaves):
+                self.model = m
+            else:
+                self.trace.append(("rejected: left the |raw|<=50 box",))
+                ctx.exclude("history_step_left_raw_box")
+
+        @invariant()
+        def valid(self):
+            if self.model is None:
+                return
+            ctx.evaluated()
+            n = validate_model(self.model, self.kind)
+            ctx.hist("history_model", self.kind)
+            if len(self.trace) >= 3:
+                ctx.mark_nontrivial({"trace": self.trace})
+            if len(self.trace) >= 4 and ctx.evaluations % 5 == 0:
+                ctx.sample({"what": "history", "trace": [list(t) for t in self.trace], "constrained_nodes": n})
+
+    sd = (ctx.seed * 1_000_003 + ctx.index * 7919 + 4242) % (2**63)
+    machine = hypothesis.seed(sd)(History)
+    try:
+        run_state_machine_as_test(machine, settings=settings(max_examples=n_examples, stateful_step_count=steps, deadline=None,
+                                                             database=None, suppress_health_check=list(HealthCheck),
+                                                             report_multiple_bugs=False, print_blob=False))
+    except Violation as v:
+        ctx.fail(v.signature, {"what": "history", "note": "re-run the state machine with the same VERIF_SEED/worker to replay",
+                               "detail": v.detail[:500]}, v.detail)
+
+
+_run_without_history = run
+
+
+def run(ctx):  # noqa: F811
+    _run_without_history(ctx)
+    q = ctx.tier == "quick"
+    run_history_machine(ctx, 2 if q else 12, 6 if q else 12)
